@@ -91,6 +91,24 @@ impl<Endpoint: Ord + Clone> BlockHandler<Endpoint> {
         }
     }
 
+    /// Verification hook: non-touching view of the state cached for the
+    /// request's key: (upload buffer length, cached response present, last
+    /// requested Block2).
+    #[cfg(coap_lite_verif)]
+    pub fn verif_peek(
+        &self,
+        request: &CoapRequest<Endpoint>,
+    ) -> Option<(Option<usize>, bool, Option<BlockValue>)> {
+        let key: RequestCacheKey<Endpoint> = request.into();
+        self.states.peek(&key).map(|state| {
+            (
+                state.cached_request_payload.as_ref().map(|p| p.len()),
+                state.cached_response.is_some(),
+                state.last_request_block2.clone(),
+            )
+        })
+    }
+
     /// Intercepts request before application processing has occurred.
     ///
     /// Returns true if the request requires Block1/2 handling and no further
